@@ -17,12 +17,32 @@ def coll_ops(ctx, marker):
         if s.fn is None:
             continue
         ck = s.ck
+        if ck in ("std::mem::take", "std::mem::replace", "std::mem::swap"):
+            # the whole collection moved out / replaced (`mem::take(&mut *guard)`)
+            args = s.fn.get("args") or []
+            if args and marker in args[0] and ("Vec<" in args[0] or "VecDeque<" in args[0] or "Map<" in args[0]):
+                out.append((s, "mem::" + ck.split("::")[-1]))
+            continue
         if not (ck.startswith("std::vec::Vec::") or ck.startswith("core::slice::") or ck.startswith("std::slice::") or ck.startswith("std::iter::Iterator::") or ck.startswith("std::iter::DoubleEndedIterator::") or ck.startswith("std::collections::")):
             continue
         args = s.fn.get("args") or []
         if not args or marker not in args[0]:
             continue
         out.append((s, ck.split("::")[-1]))
+    return out
+
+
+def whole_list_stores(ctx, marker):
+    """assignments that overwrite a whole guarded collection (`*guard = other_vec`)"""
+    out = []
+    for b in ctx.prog.bodies:
+        for bi in ctx.prog.cfg(b).nodes():
+            for si, st in enumerate(b.blocks[bi]["stmts"]):
+                if st["k"] != "assign" or not st["place"]["p"] or st["place"]["p"][0].get("k") != "deref" or len(st["place"]["p"]) != 1:
+                    continue
+                ty = b.local_ty(st["place"]["l"])
+                if marker in ty and ("Vec<" in ty) and ("Guard<" in ty or ty.startswith("&mut std::vec::Vec<")):
+                    out.append((b, bi, si))
     return out
 
 
@@ -83,6 +103,9 @@ def su1_mutators(ctx, rep, marker="Subscriber<", what="subscriber list", floors=
                 rep.bad(R, "unrecognised-removal:%s:%s" % (m, fn), s.where, "%s elements are removed with %s (neither the unsubscribe retain nor the shutdown clear)" % (what, m))
         elif m not in READERS:
             rep.bad(R, "unclassified-operation:%s:%s" % (m, fn), s.where, "operation %s on the %s is not classified" % (m, what))
+    for b_, bi_, si_ in whole_list_stores(ctx, marker):
+        rep.note_fn(b_.path)
+        rep.bad(R, "whole-list-overwritten:%s" % short(b_.path), ctx.where(b_, bi_, si_), "the %s is overwritten as a whole: registrations made meanwhile are lost and nothing releases the elements it held" % what)
     rep.floor(R, "push sites on the %s" % what, n_push, floors[0])
     rep.floor(R, "retain sites on the %s" % what, n_retain, floors[1])
     rep.floor(R, "clear sites on the %s" % what, n_clear, floors[2])
@@ -198,7 +221,18 @@ def su2_unsubscribe(ctx, rep):
             rep.check(bool(has), R, "every-path-removes:" + fn, ctx.where(body), "path [%s] performs the removal" % p0.describe(), "path [%s] returns without removing the subscriber (unsubscribe() silently does nothing)" % p0.describe())
         for ls in ctx.prog.sites(body):
             if ls.ck.startswith("std::sync::Mutex::") and ls.ck.split("::")[-1] in ("lock", "try_lock"):
-                rep.check(ls.ck.endswith("::lock"), R, "waits-for-the-list-lock:" + fn, ls.where, "the list lock is taken with the blocking lock()", "the list lock is taken with try_lock: unsubscribe() gives up when the list is busy")
+                if ls.ck.endswith("::lock"):
+                    rep.ok(R, "waits-for-the-list-lock:" + fn, ls.where, "the list lock is taken with the blocking lock()")
+                    continue
+                # try_lock: fine as a fast path when the busy case still ends in the removal under
+                # the lock (clauses every-path-removes and retain-under-list-lock decide that);
+                # giving up is reported there, panicking on contention here
+                bp_ = ctx.prog.bp(body)
+                me = ("trylockres", bp_.arg_term(ls.bb, 0))
+                unwrapped = any(x.ck in ("std::result::Result::unwrap", "std::result::Result::expect") and x.term["args"] and bp_.arg_term(x.bb, 0) == me for x in ctx.prog.sites(body))
+                gives_up = any(p0.end == "return" and not [e for e in p0.calls() if e.bb == s.bb and e.body is not None and e.body.path == body.path] for p0 in pe0.paths)
+                rep.check(not unwrapped and not gives_up, R, "waits-for-the-list-lock:" + fn, ls.where, "try_lock is only a fast path: the busy case falls back to waiting and every path removes",
+                          "the list lock is taken with try_lock: unsubscribe() gives up (or panics) when the list is busy")
         # predicate closure
         preds = [st for st in subterms(bp.arg_term(s.bb, 1)) if st[0] == "agg" and st[1].startswith("closure:")]
         if len(preds) != 1:
